@@ -206,6 +206,24 @@ func bucketOf(n int) int {
 	return 1 << 31
 }
 
+// keyProbe: the series key is a function of tags and source alone, whichever of the repository's two ways computes it
+// (the package function used by the tag and cloud stages, the cached method used by Receive): "" when they agree
+func keyProbe(entries [][]string) string {
+	for _, e := range entries {
+		if len(e) != 5 {
+			continue
+		}
+		v := dec(e[4])
+		tags := gostatsd.Tags(v.Tags)
+		fk := gostatsd.FormatTagsKey(gostatsd.Source(v.Src), tags.Copy())
+		m := &gostatsd.Metric{Tags: tags.Copy(), Source: gostatsd.Source(v.Src)}
+		if mk := m.FormatTagsKey(); mk != fk {
+			return " || K " + hx.S(fk) + " " + hx.S(mk)
+		}
+	}
+	return ""
+}
+
 func build(entries [][]string) (*gostatsd.MetricMap, [][3]string) {
 	mm := gostatsd.NewMetricMap(false)
 	keys := [][3]string{}
@@ -263,7 +281,19 @@ func renderPiece(p *gostatsd.MetricMap) string {
 	return strings.Join(es, " ; ")
 }
 
-func runOne(line string) (out string) {
+// runOne runs a case under a watchdog: a dispatch that never returns is an output (`HANG`), not a reason to hang
+func runOne(line string) string {
+	done := make(chan string, 1)
+	go func() { done <- runCase(line) }()
+	select {
+	case o := <-done:
+		return o
+	case <-time.After(30 * time.Second):
+		return "HANG the dispatch did not return"
+	}
+}
+
+func runCase(line string) (out string) {
 	defer func() {
 		if e := recover(); e != nil {
 			out = fmt.Sprintf("PANIC %v", e)
@@ -298,7 +328,7 @@ func runOne(line string) (out string) {
 	for i, p := range pieces {
 		outp[i] = renderPiece(p)
 	}
-	return strings.Join(outp, " | ") + " || " + dispatch(n, parts[1:])
+	return strings.Join(outp, " | ") + " || " + dispatch(n, parts[1:]) + keyProbe(parts[1:])
 }
 
 // recorder is an Aggregator that remembers what its worker was handed.
